@@ -94,7 +94,10 @@ def read_op(rng, w, k, i, c, lane):
         return {'op': 'R', 'api': 'GET', 'w': w, 'k': k, 'i': i, 'c': c, 'lane': lane}
     if k in ('s', 'v') and r > 0.9:
         return {'op': 'R', 'api': 'RF', 'w': w, 'k': k, 'i': i, 'c': c, 'lane': lane, 'd': [0] * width(c)}
-    if r < 0.55:
+    if r > 0.78:
+        # the raw interface under the operand calls: emu.Wavefront.ReadReg / RegFileAccessor.ReadReg
+        return {'op': 'R', 'api': 'RR', 'w': w, 'k': k, 'i': i, 'c': c, 'lane': lane}
+    if r < 0.45:
         return {'op': 'R', 'api': 'RO', 'w': w, 'k': k, 'i': i, 'c': c, 'lane': lane}
     n = rng.choice([nb, nb, 64, 1, 2, 3, 4, 8, max(1, nb - 1), rng.randrange(1, 65)])
     return {'op': 'R', 'api': 'RB', 'w': w, 'k': k, 'i': i, 'c': c, 'lane': lane, 'n': n}
@@ -391,7 +394,7 @@ def corruptions():
         def ok(i, r):
             if r['e'] != 'W' or not r['chg']:
                 return False
-            for q in recs[i + 1:i + 4]:
+            for q in recs[i + 1:i + 9]:
                 if q['e'] == 'R' and all(q.get(f) == r.get(f) for f in ('st', 'w', 'k', 'i', 'c', 'lane')):
                     return True
             return False
@@ -432,7 +435,15 @@ def corruptions():
         recs[i]['chg'].append([others[-1]['w'], 0, [9, 9, 9, 9]])
         return recs
 
-    return [('corrupt_read_answer', corrupt_answer), ('drop_write', drop_write),
+    def held_answer_overwritten(recs, rng):
+        i = pick(recs, rng, lambda i, r: r['e'] == 'Held' and any(len(x[1]) > 0 for x in r['h']))
+        if i is None:
+            return None
+        x = rng.choice([x for x in recs[i]['h'] if len(x[1]) > 0])
+        x[1][rng.randrange(len(x[1]))] ^= 0x01
+        return recs
+
+    return [('held_answer_overwritten', held_answer_overwritten), ('corrupt_read_answer', corrupt_answer), ('drop_write', drop_write),
             ('write_disturbs_next_lane', neighbour_disturbed), ('multi_register_write_loses_a_dword', lost_dword),
             ('vcc_hi_write_lands_in_vcc_lo', wrong_half), ('release_changes_a_neighbour', release_zeroes_neighbour)]
 
